@@ -26,6 +26,9 @@ impl InstructionGenerator {
     /// Evaluate SELECT CASE x into A
     fn generate_eval_select_case_expr(&mut self, expr: ExpressionPos, pos: Position) {
         self.generate_expression_instructions(expr);
+        // to be able to resume after an error in the expression:
+        // the blocks must not run without the value on the stack
+        self.mark_statement_address();
         self.push(Instruction::PushAToValueStack, pos);
     }
 
